@@ -10,7 +10,7 @@ setup:
 	cd go2v && go build -o ../build/go2v .
 	./build/go2v /repo coq/theories/Gen
 	cd coq && coq_makefile -f _CoqProject -o Makefile $$(find theories -name '*.v' | grep -v /Extract/ | sort) && rm -f .vfiles.sig && timeout 3000 make -k -j16
-	cd ocaml && coqc -Q ../coq/theories GH ../coq/theories/Extract/Extract.v && ocamlfind ocamlopt -w -a -O2 model.mli model.ml driver_ext.ml driver.ml -o ../build/modelrun
+	cd ocaml && coqc -Q ../coq/theories GH ../coq/theories/Extract/Extract.v && ocamlfind ocamlopt -w -a -O2 model.mli model.ml driver_kinds.ml util.ml driver_ext.ml driver.ml -o ../build/modelrun
 	cd harness && cp /repo/go.sum go.sum && go build -tags verif -o ../build/hx .
 
 clean:
